@@ -295,3 +295,28 @@ PROPS["C18"] = {
     ],
     "assumptions": [],
 }
+
+PROPS["C19"] = {
+    "lean_modules": ["BurrowVerif.Props.C19"],
+    "props_files": ["BurrowVerif/Props/C19.lean"],
+    "anchors": ["core/burrow.go", "main.go", "core/internal/helpers/validation.go", "core/internal/helpers/sarama.go", "core/internal/storage/inmemory.go",
+                "core/internal/consumer/kafka_client.go", "core/internal/cluster/kafka_cluster.go", "core/internal/notifier/coordinator.go", "core/internal/httpserver/coordinator.go"],
+    "streams": [{"name": "config", "keys": None, "trivial": r"^valid=1 ", "hist_keys": ["site", "start", "valid"],
+                 "scale": {"quick": 1, "thorough": 10}, "seeds": {"quick": 1, "thorough": 3}}],
+    "rule": ("stream config: per case a valid base configuration (zookeeper, 0-1 storage and evaluator modules, 0-2 listeners incl. TLS with real generated PEM files, 0-2 client profiles with "
+             "versions and TLS, 0-2 clusters, 0-2 consumers of both classes, 0-2 notifiers of every class with real template files) and six variants, each obtained by one edit — sometimes two, in "
+             "different coordinators — from a catalogue of 23 edit families (~70 concrete edits) covering every validation site of the inventory, invalidating ones and validity-preserving ones "
+             "(blank listener host, unread close template, bad key pair without CA, unknown profile on a kafka_zk consumer, upper-cased cluster reference, any port on the SMTP server). Each is "
+             "rendered to TOML, loaded into viper and run through the REAL configuration phase (newCoordinators + configureCoordinators) and then the REAL core.Start (always for refused "
+             "configurations; for accepted ones when nothing needs the network). Compared with the model, which is given the facts and oracle bits: accepted/refused, WHICH validation fired "
+             "(message class), and the result of Start (returned 0 / returned 1 / panicked). Non-trivial = a refused configuration."),
+    "trusted": [
+        "what library code decides is an oracle bit computed by the harness with the same calls Burrow uses: regexp.Compile, template parsing with the helper map, helpers.ValidateHostList / "
+        "ValidateHostPort / ValidateZookeeperPath, parseKafkaVersion, os.ReadFile, tls.LoadX509KeyPair",
+        "the harness's rendering of a structured description to TOML and to facts; viper's own reading of TOML",
+        "module Start methods (network) are not modelled; 'without starting any subsystem' is a theorem of the model (Start returns before the start loop) and is observed only as Start's return value",
+        "Go map iteration makes the order of modules inside one coordinator random: the generator puts at most one failing module in a coordinator",
+        "the list of panic sites reachable from Configure is regenerated from the source (go/ast) on every run and pinned by catalogue_is_the_sources",
+    ],
+    "assumptions": [],
+}
